@@ -215,6 +215,9 @@ static void prop(Ctx &c) {
             if (ok && !valid) odd = true;                                   // judged by the setter model above, not here
             if (!ok) { refused = true; if (!zck_clear_error(z)) dead = true; }
         }
+        // the context initialised once more before the lead is read (a caller that re-points it at another copy of the file by
+        // initialising again): what was pinned is still what the lead is judged by
+        if (c.gver >= 4 && !dead && c.rarely(4)) { lseek(fd, 0, SEEK_SET); if (!zck_init_adv_read(z, fd)) dead = true; hist += "zck_init_adv_read again; "; c.label("initialised-again-after-pinning"); }
         bool api = c.boolean(); bool acc = !dead && (api ? zck_validate_lead(z) : zck_read_lead(z)); evals++;
         bool must_reject = false;
         if (have_dg) for (size_t i = 0; i < h.header_digest.size(); i++) if ((hexval(last_dg[2 * i]) << 4 | hexval(last_dg[2 * i + 1])) != h.header_digest[i]) must_reject = true;
